@@ -283,6 +283,55 @@ func plantInRPC(t *rapid.T, set *ymodel.Set) bool {
 	return true
 }
 
+// plantBelowRemoved gives a container or list two colliding augments (or one augment that brings a leaf of an
+// unknown type) and removes that very node, or a node above it, by a deviation of the same module: the error arises
+// while the augment is merged and the node that holds it is gone before processing ends.
+func plantBelowRemoved(t *rapid.T, set *ymodel.Set) string {
+	r := yref.New(set)
+	trees := r.Expand()
+	if len(r.Problems) > 0 {
+		return ""
+	}
+	type cand struct {
+		from *ymodel.Module
+		tg   schema.Target
+	}
+	var cands []cand
+	for _, m := range set.Modules {
+		if m.IsSub {
+			continue
+		}
+		for _, tg := range schema.AllNodes(set, trees, m) {
+			if (tg.Node.Kind == ymodel.KContainer || tg.Node.Kind == ymodel.KList) && !tg.InOp && !tg.Node.Implicit && !strings.Contains(tg.Path, ":older-") {
+				cands = append(cands, cand{m, tg})
+			}
+		}
+	}
+	if len(cands) == 0 {
+		return ""
+	}
+	c := cands[rapid.IntRange(0, len(cands)-1).Draw(t, "removed-target")]
+	leaf := func(n, typ string) *ymodel.Node {
+		return &ymodel.Node{Kind: ymodel.KLeaf, Name: n, Type: &ymodel.TypeRef{Name: typ}}
+	}
+	kind := "augment-collision"
+	if rapid.Bool().Draw(t, "unknown-type-in-augment") {
+		kind = "unknown-type-in-augment"
+		c.from.Augments = append(c.from.Augments, &ymodel.Augment{Path: c.tg.Path, Body: ymodel.Body{Nodes: []*ymodel.Node{leaf("zz-lost", "nosuch-type")}}})
+	} else {
+		c.from.Augments = append(c.from.Augments,
+			&ymodel.Augment{Path: c.tg.Path, Body: ymodel.Body{Nodes: []*ymodel.Node{leaf("zz-clash", "string")}}},
+			&ymodel.Augment{Path: c.tg.Path, Body: ymodel.Body{Nodes: []*ymodel.Node{leaf("zz-clash", "int8")}}})
+	}
+	// the node itself, or the top-level node above it
+	path := c.tg.Path
+	if i := strings.Index(path[1:], "/"); i > 0 && rapid.Bool().Draw(t, "remove-the-ancestor") {
+		path = path[:i+1]
+	}
+	c.from.Deviations = append(c.from.Deviations, &ymodel.Deviation{Path: path, Deviates: []*ymodel.Deviate{{Kind: "not-supported"}}})
+	return kind + "-below-a-node-that-a-deviation-removes"
+}
+
 // addWild adds statements for which there is no reference outcome (C04 needs none: whatever is processed
 // cleanly must be a proper tree): augments whose path names the implicit case of a shorthand choice member,
 // choices put straight into a choice or brought as shorthand by an augment, deviate not-supported of any node,
@@ -412,6 +461,8 @@ func gen(t *rapid.T) Case {
 	}
 	if rapid.IntRange(0, 7).Draw(t, "plant-in-rpc") == 0 && plantInRPC(t, set) {
 		c.Late = "unknown-type-below-rpc-input-output"
+	} else if len(c.Wild) == 0 && rapid.IntRange(0, 9).Draw(t, "plant-below-removed") == 0 {
+		c.Late = plantBelowRemoved(t, set)
 	}
 	if rapid.Bool().Draw(t, "permute") {
 		c.Order = schema.Order(t, len(set.Modules))
@@ -425,7 +476,7 @@ func TestCheck(t *testing.T) {
 	ev.Run(t, ev.Spec[Case]{
 		ID:    "C04",
 		Level: "exploration",
-		Rule: "module sets generated valid by construction from the schema model (1-3 modules with imports under arbitrary prefixes, 0-2 submodules each with nested includes, typedefs and groupings at every scope from a three-name pool, uses nested to depth 3 across modules and submodules, containers, lists, leaves, leaf-lists, choices with explicit and shorthand cases, anydata/anyxml, rpc/action/notification with and without input/output, augments chained across modules) in model or permuted load order; a quarter of the sets further carry statements for which only the invariant is the oracle (augments whose path names the implicit case of a shorthand choice member, choices put straight into a choice or brought as shorthand members by an augment, deviate not-supported (also written twice) and deviate replace/add type of any node including rpc input/output); in a fifth of the sets an older revision of one module (with a shorthand choice, an augment of its own and an rpc) is loaded as well; plus sets with a planted late problem (two augments colliding on a child name, inapplicable deviations). " +
+		Rule: "module sets generated valid by construction from the schema model (1-3 modules with imports under arbitrary prefixes, 0-2 submodules each with nested includes, typedefs and groupings at every scope from a three-name pool, uses nested to depth 3 across modules and submodules, containers, lists, leaves, leaf-lists, choices with explicit and shorthand cases, anydata/anyxml, rpc/action/notification with and without input/output, augments chained across modules) in model or permuted load order; a quarter of the sets further carry statements for which only the invariant is the oracle (augments whose path names the implicit case of a shorthand choice member, choices put straight into a choice or brought as shorthand members by an augment, deviate not-supported (also written twice) and deviate replace/add type of any node including rpc input/output); in a fifth of the sets an older revision of one module (with a shorthand choice, an augment of its own and an rpc) is loaded as well; plus sets with a planted late problem (an unknown type below rpc/action input or output; two augments colliding on a child name, or an augment bringing a leaf of an unknown type, on a node that a deviate not-supported of the same module then removes, itself or through its top-level ancestor). " +
 			"Oracle when Process() is clean: full walk of every module tree over Dir and RPC input/output: key = child name, parent link = holder (input/output -> rpc/action), every *Entry met once (no sharing between places, uses or modules), kind/child map/list attributes/type mutually consistent, every child of a choice a case, no augment left, no node with a recorded error, GetErrors() empty; with a planted late problem Process() must report an error. " +
 			"Non-trivial = clean set whose trees contain a node that went through >= 2 copy/merge steps (uses in uses, uses+augment, include+uses; known from the model), or that carries one of the invariant-only statements, or a planted late problem; distinct by (set, order)",
 		Assumptions: []string{
